@@ -128,12 +128,12 @@ func bufDocs(thorough bool) map[string][]byte {
 		"objsyntax":  []byte(`{"a":[{"b":]}`),
 		"null":       []byte(`null`),
 		"depth40":    deep(20, `[{"k":`, `}]`),
+		"depth10000": deep(10000, `[`, `]`),
 		"depth10001": deep(10001, `[`, `]`),
 		"depth12000": deep(12000, `[`, `]`),
 		"odepth9000": deep(9000, `{"a":`, `}`),
 	}
 	if thorough {
-		d["depth10000"] = deep(10000, `[`, `]`)
 		d["odepth10001"] = deep(10001, `{"a":`, `}`)
 		d["depth300"] = deep(150, `[[`, `]]`)
 	}
